@@ -137,7 +137,9 @@ def ctor_contracts():
         Case('plain', args={'self': 'inst:streaming.Iter', 'subspec': 'ref', 'kwargs': 'kw:'},
              ensures=['self.subspec is subspec', 'len(as_list(self._iter_stack)) == 0', 'self.sentinel is STOP']),
         Case('stack', args={'self': 'inst:streaming.Iter', 'subspec': 'ref', 'kwargs': 'kw:_iter_stack,sentinel'},
-             ensures=['self.subspec is subspec', "self._iter_stack is kw__iter_stack", "self.sentinel is kw_sentinel"])]))
+             ensures=['self.subspec is subspec', "self._iter_stack is kw__iter_stack", "self.sentinel is kw_sentinel"]),
+        Case('bogus', args={'self': 'inst:streaming.Iter', 'subspec': 'ref', 'kwargs': 'kw:bogus'}, ensures=['False'], raises={'TypeError': 'True'},
+             may_raise=['BaseException'], raise_only=True)]))
     cs.append(Post('core._ArgValuator.__init__', cases=[
         Case('any', args={'self': 'inst:core._ArgValuator'}, ghosts={'k': 'ref'}, ensures=['k not in self.cache'])]))
     return cs
